@@ -380,7 +380,7 @@ def assess(pid, plan, recs, verdicts, info, nrand):
            "samples": [summarize(r) for r in (recs[:2] + recs[len(recs) // 2: len(recs) // 2 + 1] + recs[-2:])],
            "exhaustive": False, "topologies_exhaustive_within_bound": True,
            "explanation": (f"TLC enumerated all {info['shapes']} valid shapes with <= {info['shape_bound'][0]} nodes and "
-                           f"<= {info['shape_bound'][1]} links (up to renumbering; +13 larger patterns), x {info['variants']} "
+                           f"<= {info['shape_bound'][1]} links (up to renumbering; +15 larger patterns), x {info['variants']} "
                            f"decorations x {info['generic']} generic + {info['corners']} corner points = {info['cases']} cases, "
                            f"plus {nrand} seeded random realistic networks; every case executed by the real library and "
                            "every recorded execution validated by TLC against Metanet.tla/Compile.tla."),
